@@ -57,7 +57,7 @@ func raceBinary(env *vh.Env, rep *vh.Report) string {
 
 func runChildProc(bin string, mode string, env *vh.Env) (stdout, stderr []byte, err error) {
 	cmd := exec.Command(bin, "-child", mode, "-tier", env.Tier, "-seed", fmt.Sprint(env.Seed), "-repo", env.Repo)
-	cmd.Env = append(os.Environ(), "GORACE=halt_on_error=0 exitcode=0 history_size=3")
+	cmd.Env = append(os.Environ(), "GORACE=halt_on_error=0 exitcode=0 history_size=3", "VERIF_SKIP_TYPES="+deadList())
 	var o, e bytes.Buffer
 	cmd.Stdout, cmd.Stderr = &o, &e
 	done := make(chan error, 1)
@@ -295,6 +295,9 @@ func runChild(mode string, env *vh.Env) {
 			iters = 3000
 		}
 		for _, c := range ctors {
+			if isDead(c.name) {
+				continue
+			}
 			// the mutators against themselves first: if they race with each other, every other pair of
 			// this type would only repeat that
 			runMutatorPair(c, iters, mark)
@@ -304,6 +307,9 @@ func runChild(mode string, env *vh.Env) {
 				}
 				if c.name == "LinkedList" && entityAPI[m] {
 					continue
+				}
+				if isDead(c.name) {
+					break
 				}
 				if runPair(c, m, iters, mark) {
 					done = append(done, c.name+"."+m)
@@ -388,7 +394,15 @@ func runPair(c ctor, m string, iters int, mark func(string)) bool {
 		}
 	}()
 	close(start)
-	wg.Wait()
+	fin := make(chan struct{})
+	go func() { wg.Wait(); close(fin) }()
+	select {
+	case <-fin:
+	case <-time.After(20 * time.Second):
+		markDead(c.name) // an operation never returned: skip the rest of this type
+		mark("##PAIR-HUNG " + c.name + "." + m)
+		return false
+	}
 	mark("##PAIR-END")
 	return true
 }
@@ -414,7 +428,15 @@ func runMutatorPair(c ctor, iters int, mark func(string)) {
 		}(g)
 	}
 	close(start)
-	wg.Wait()
+	fin := make(chan struct{})
+	go func() { wg.Wait(); close(fin) }()
+	select {
+	case <-fin:
+	case <-time.After(20 * time.Second):
+		markDead(c.name)
+		mark("##PAIR-HUNG " + c.name + ".<mutators>")
+		return
+	}
 	mark("##PAIR-END")
 }
 
